@@ -461,6 +461,50 @@ def run(rep, ctx):
              short_loc(dcs.loc), "bit 1 variables, bits 2/4/8 constraints, bit 16 objectives", str(bits))
 
     # ---- H1 ---------------------------------------------------------------------------
+    # ---- V1: variable bound and integrality checks ---------------------------------------------------
+    v1 = rep.rule("C07.V1", "TABLE", "variable checks: violation lb-x with reference lb, x-ub with reference ub, |x-round(x)| with the integrality tolerance", floor=3)
+    cvf = one("mp::SolutionChecker::CheckVars")
+
+    def aff(e):
+        e = strip(e)
+        if e["k"] == "BinaryOperator" and e.get("op") in ("+", "-"):
+            a, b = aff(kids(e)[0]), aff(kids(e)[1])
+            out = dict(a)
+            for t_, v_ in b.items():
+                out[t_] = out.get(t_, 0.0) + (v_ if e["op"] == "+" else -v_)
+            return {t_: v_ for t_, v_ in out.items() if v_}
+        if e["k"] == "UnaryOperator" and e.get("op") == "-":
+            return {t_: -v_ for t_, v_ in aff(kids(e)[0]).items()}
+        return {nt(render(e)).replace("MPCD(", "(").replace("((", "(").replace("))", ")"): 1.0}
+    cvs = [c for c in cvf.walk() if c["k"] == "CXXMemberCallExpr" and (c.get("callee") or "").endswith("::CheckViol")]
+    got = []
+    for c in cvs:
+        a = call_args(c)
+        il = [x for x in walk(a[0]) if x["k"] == "InitListExpr" and len(kids(x)) == 2]
+        if not il:
+            got.append(("?",))
+            continue
+        viol, ref = kids(il[0])
+        obj = nt(render(call_object(c)))
+        got.append((obj.split(".")[1] if "." in obj else obj, aff(viol), nt(render(ref)), nt(render(a[1])), nt(render(a[2]))))
+
+    def has(objpat, violaff, refpat, tol, tolrel):
+        for g_ in got:
+            if len(g_) == 5 and objpat in g_[0] and g_[1] == violaff and _re.fullmatch(refpat, g_[2]) and tol in g_[3] and tolrel in g_[4]:
+                return True
+        return False
+    lbx = [k_ for g_ in got if len(g_) == 5 for k_ in g_[1] if "lb(i)" in k_]
+    ubx = [k_ for g_ in got if len(g_) == 5 for k_ in g_[1] if "ub(i)" in k_]
+    LB = lbx[0] if lbx else "lb(i)"
+    UB = ubx[0] if ubx else "ub(i)"
+    v1.check(len(cvs) == 3 and has("VarViolBnds", {LB: 1.0, "x": -1.0}, r".*lb\(i\).*", "sol_feas_tol()", "sol_feas_tol_rel()"), "lower-bound", short_loc(cvf.loc),
+             "lower bound: violation lb(i) - x, relative to lb(i), tolerances sol:chk:feastol / feastolrel", str(got))
+    v1.check(has("VarViolBnds", {"x": 1.0, UB: -1.0}, r".*ub\(i\).*", "sol_feas_tol()", "sol_feas_tol_rel()"), "upper-bound", short_loc(cvf.loc),
+             "upper bound: violation x - ub(i), relative to ub(i)",
+             "the upper-bound check is not (x - ub(i), reference ub(i)): %s - with the wrong reference value the relative tolerance is applied to another number and violations are missed or invented" % [g_ for g_ in got if len(g_) == 5 and any("ub(i)" in k_ for k_ in g_[1])])
+    v1.check(any(len(g_) == 5 and "VarViolIntty" in g_[0] and len(g_[1]) == 1 and list(g_[1])[0].replace(")", "") == "fabs(x-round(x" and g_[2] == "round(x)" and "sol_int_tol()" in g_[3] for g_ in got), "integrality", short_loc(cvf.loc),
+             "integrality: |x - round(x)| against sol:chk:inttol for integer variables", str(got))
+
     h1 = rep.rule("C07.H1", "PATH", "the check runs in the postsolve of every solution", floor=1)
     ps = one("mp::pre::ValuePresolver::PostsolveSolution")
     call = [n for n in ps.walk() if n["k"] == "CXXOperatorCallExpr" and n.get("op") == "()" and "solchk_" in render(n)]
